@@ -540,7 +540,7 @@ func corrC14(c *corrCtx) {
 			}
 			if k%11 == 5 {
 				// components that are not numbers at all (a colour that came out of 0/0 or an overflow upstream)
-				lin[r.intn(3)] = bf(uint32(r.pick(0x7fc00000, 0xffc00000, 0x7f800000, 0xff800000, 0x7f800001)))
+				lin[r.intn(3)] = bf([]uint32{0x7fc00000, 0xffc00000, 0x7f800000, 0xff800000, 0x7f800001}[r.intn(5)])
 			}
 			al := float32(r.intn(65536)) / 65535
 			switch r.intn(6) {
@@ -657,6 +657,14 @@ func corrC14(c *corrCtx) {
 				for d := -2; d <= 2; d++ {
 					try("boundary", bf(uint32(int(fb(x0))+d)), k%1021 == 0 || k >= cv.max-2)
 				}
+			}
+			// alpha at and beyond 1, up to the largest float32 and +Inf: clipped to the maximum code
+			for _, al := range []float32{1, 1.0000001, 1.5, 2, 255, 65535, 1e6, 1e10, 1e14, 1.5e14, 2e14, 3e16, 4e16, 1e20, 1e30, math.MaxFloat32, float32(math.Inf(1))} {
+				if got := cv.f(al); got != uint32(cv.max) {
+					c.direct(fmt.Sprintf("C14/alpha-clip-high/%s/%s/%08x", s.name, cv.name, fb(al)), "an alpha at or above 1 is not written as the maximum code (the clip to [0,1] must hold for every magnitude)",
+						map[string]interface{}{"space": s.name, "converter": cv.name, "alpha": fmt.Sprint(al), "alpha_bits": fmt.Sprintf("%08x", fb(al)), "written": got, "max": cv.max})
+				}
+				c.stats["alpha-clip-high/"+cv.name]++
 			}
 			for j := 1; j <= 400; j++ {
 				try("below-one", bf(0x3f800000-uint32(j)), j%40 == 0)
@@ -1106,6 +1114,8 @@ func corrC03(c *corrCtx) {
 			}
 		}
 	}
+	// exported declarations assigned to and restored (runs last, restores)
+	declHistories(c)
 }
 
 // ---- C04 ------------------------------------------------------------------------------
